@@ -116,6 +116,14 @@ def staticStep (s : StaticState) : List String → StaticState × String
       (s, s!"{resp.status / 100} {servedStr resp.served} ;; {resp.status} {names}")
     | _, _, _, _ => (s, "bad-op")
   | ["rawbad", _] => (s, "rejected")
+  | ["gvar", name, regex] =>
+    -- `rux.SetGlobalVar(name, regex)` before the next mount.  `parseParamRoute` consults the global vars only
+    -- for a route var WITHOUT inline regex; the routes of the four static handlers are `pfx/{file:.+}`,
+    -- `pfx/{file:.+\.(?:exts)}` and a prefix of the modelled fragment (`Mount.supported` → `okPrefix`: no `{`), so no
+    -- definition, whatever its name and value, changes `capture`: the model state is untouched.
+    match Bytes.ofHex name, Bytes.ofHex regex with
+    | some (_ :: _), some _ => (s, "ok")
+    | _, _ => (s, "bad-op")
   | _ => (s, "bad-op")
 
 def staticEngine : Engine := { σ := StaticState, init := {}, step := staticStep }
